@@ -723,6 +723,8 @@ pub struct RunLog {
   /// (recorder, stamp at entry, stamp at exit) of every subscriber callback, the exit taken
   /// after the callback's reactions ran
   pub cb_spans: Vec<(usize, u64, u64)>,
+  /// virtual time (ns) at which every recorder's subscribe call started
+  pub sub_vt: Vec<Option<u64>>,
   pub reactions_skipped: Vec<(usize, usize)>,
   /// number of actions fully executed
   pub actions_done: usize,
@@ -778,6 +780,13 @@ pub fn do_subscribe(sh: &Arc<Shared>, k: usize) {
   };
   if lk(&sh.log).sub_marks[k].is_some() {
     return;
+  }
+  {
+    let now = arx_rt::now();
+    let mut l = lk(&sh.log);
+    if k < l.sub_vt.len() {
+      l.sub_vt[k] = Some(now);
+    }
   }
   let t0 = arx_rt::stamp();
   lk(&sh.log).sub_marks[k] = Some((t0, 0));
@@ -896,6 +905,7 @@ pub fn setup(case: &Case, log: &Arc<Mutex<RunLog>>) -> (Env, Arc<Shared>) {
     l.recs = vec![Vec::new(); nrec];
     l.sub_marks = vec![None; nrec];
     l.unsub_marks = vec![Vec::new(); nrec];
+    l.sub_vt = vec![None; nrec];
   }
   let env = Env::new(case);
   let src = env.build(&case.root);
